@@ -417,6 +417,13 @@ def cases(tier):
                 for k in ('six-mixed', 'six-same', 'unrodded'):
                     if tol == 0.0:
                         iso.append(dict(target=t, coolant=cool, company=k))
+    if tier == 'quick':
+        # a low-fidelity type (bundle-equivalent correlations) among clones of itself
+        for cool in coolants:
+            for k in ('plus1-same', 'six-mixed'):
+                comp.append(dict(target='lowfi', coolant=cool, company=k, tol=0.0))
+        order.append(dict(target='lowfi', coolant='sodium', company='six-mixed'))
+        sched.append(dict(target='lowfi', coolant='sodium', company='six-mixed'))
     if tier != 'quick':
         for t in targets:
             for cool in coolants:
